@@ -403,7 +403,7 @@ def thorough_extras(pid, res, repo):
                     res.counts['selftest_patch_not_applicable'] = res.counts.get('selftest_patch_not_applicable', 0) + 1
                     continue
                 _AN.pop((tmp, 'yes', ()), None)
-                sub = CHECKS[pid]('quick', tmp)
+                sub = run(pid, 'quick', tmp)
                 if sub.violations:
                     caught += 1
                 else:
@@ -431,7 +431,7 @@ def thorough_extras(pid, res, repo):
                 if p.returncode != 0:
                     res.counts['control_patch_not_applicable'] = res.counts.get('control_patch_not_applicable', 0) + 1
                     continue
-                sub = CHECKS[pid]('quick', tmp)
+                sub = run(pid, 'quick', tmp)
                 rules_hit = set(v.rule for v in sub.violations)
                 for e in want:
                     if e['rule'] in rules_hit:
